@@ -23,6 +23,23 @@ Definition w_closing : list label :=
 Definition w_queue1 : list label :=
   [ESend Cl (KOwn false 0); IRead Cl; ITake Cl false; ILock Cl; IUnlock Cl false].
 
+(* The client has stopped reading.  A client DATA frame arrives: the client->server reader is in
+   sendWindowUpdates, its credit write toward the client pending.  A server HEADERS frame is queued
+   and taken by the server->client writer, which needs the same destMu.  Then writes toward the
+   client fail: the credit write fails and the reader leaves - with destMu still locked if
+   sendWindowUpdates does not release it on that path. *)
+Definition w_credit_fails_writer_waits : list label :=
+  w_idle
+  ++ [EStall Cl; ESend Cl (KOwn true 1); IRead Cl; ITake Cl false]
+  ++ [ESend Sv (KOwn false 1); IRead Sv; ITake Sv false; ILock Sv; ISend Sv; IUnlock Sv false; IWTake Sv]
+  ++ [EWriteFail Cl; IDWrite Cl true; IHandshake Cl; IStop Cl; ISelDone Sv].
+
+Definition cfg_destmu_leak : cfg := mkCfg true true true true false.
+
+Definition lock_leaked_writer_stuck (s : state) : bool :=
+  dleak_c s && match rd (ds s), wr (ds s) with RDoneSend, WPend => true | _, _ => false end
+  && negb (returned s) && negb (blocks s Cl) && negb (blocks s Sv).
+
 Fixpoint rep {A} (n : nat) (l : list A) : list A :=
   match n with 0 => [] | S m => l ++ rep m l end.
 
@@ -46,11 +63,11 @@ Definition w_full_both_closed : list label := w_full_then_end ++ [EClose Sv].
 Definition w_blocked_write_fails_late : list label :=
   w_idle
   ++ [ESend Cl (KOwn false 1); IRead Cl; ITake Cl false; ILock Cl; ISend Cl; IUnlock Cl false]
-  ++ [EStall Sv; IWriteBlock Cl]
+  ++ [EStall Sv; IWTake Cl]
   ++ [EHalf Sv; IReadEnd Sv; ITake Sv false; IHandshake Sv; IStop Sv; ISelDone Cl]
-  ++ [EClose Sv; IWriteUnblock Cl true].
+  ++ [EClose Sv; IWSend Cl true].
 
-Definition cfg_unbuffered_werr : cfg := mkCfg true true true false.
+Definition cfg_unbuffered_werr : cfg := mkCfg true true true false true.
 
 Definition handoff_deadlock (s : state) : bool :=
   match rd (dc s), wr (dc s) with RDoneSend, WErrSend => true | _, _ => false end
@@ -67,7 +84,7 @@ Definition not_returned (s : state) : bool := negb (returned s).
 Lemma refute_returns_orig : bad_final cfg_orig w_client_close not_returned = true.
 Proof. vm_compute. reflexivity. Qed.
 
-Lemma refute_returns_no_done : bad_final (mkCfg true false true true) w_client_close not_returned = true.
+Lemma refute_returns_no_done : bad_final (mkCfg true false true true true) w_client_close not_returned = true.
 Proof. vm_compute. reflexivity. Qed.
 
 Lemma refute_upstream_orig :
@@ -75,7 +92,7 @@ Lemma refute_upstream_orig :
 Proof. vm_compute. reflexivity. Qed.
 
 Lemma refute_upstream_no_close :
-  bad_final (mkCfg false true true true) w_closing (fun s => returned s && negb (sc_closed s)) = true.
+  bad_final (mkCfg false true true true true) w_closing (fun s => returned s && negb (sc_closed s)) = true.
 Proof. vm_compute. reflexivity. Qed.
 
 Lemma refute_goroutine_orig :
@@ -90,7 +107,20 @@ Lemma refute_emit_orig : bad_final cfg_orig w_full_both_closed stuck_in_emit = t
 Proof. vm_compute. reflexivity. Qed.
 
 (* with the done signal but a bare `output <- f`, the same run still wedges *)
-Lemma refute_emit_no_abort : bad_final (mkCfg true true false true) w_full_both_closed stuck_in_emit = true.
+Lemma refute_emit_no_abort : bad_final (mkCfg true true false true true) w_full_both_closed stuck_in_emit = true.
+Proof. vm_compute. reflexivity. Qed.
+
+(* sendWindowUpdates leaves destMu locked on its error path: the opposite writer waits for it for ever;
+   shutting the proxy down and the client going away do not help *)
+Lemma refute_destmu_leak :
+  bad_final cfg_destmu_leak (w_credit_fails_writer_waits ++ [EClosing; EClose Cl]) lock_leaked_writer_stuck = true.
+Proof. vm_compute. reflexivity. Qed.
+
+Lemma fixed_escapes_credit_failure :
+  match run cfg_fixed init (w_credit_fails_writer_waits ++ [IWSend Sv true; IHandshake Sv; IStop Sv; IJoin; ICallerClose; IReadEnd Sv]) with
+  | Some s => quiescentb cfg_fixed s && negb (blocks s Cl) && negb (blocks s Sv) && c10_ok (obs_of s)
+  | None => false
+  end = true.
 Proof. vm_compute. reflexivity. Qed.
 
 (* writerErr unbuffered: writer waits to hand over its error, reader waits for the writer: for ever *)
@@ -151,7 +181,7 @@ Definition ending_label (l : label) : bool :=
   | EClose _ | EHalf _ | EClosing => true
   | ESend _ KBad => true
   | IPreface false => true
-  | ITake _ true | IUnlock _ true | IWriteUnblock _ true => true
+  | IDWrite _ true | IWSend _ true => true
   | _ => false
   end.
 
@@ -166,7 +196,7 @@ Proof.
     repeat match goal with b : bool |- _ => destruct b end; try discriminate He;
     destruct_state s;
     cbn [step getd setd with_rd with_rd_rf exit_failed set_trig set_remote remote
-         dc ds main cli srv wbroken_c wbroken_s sc_closed cc_closed closing done trig
+         dc ds main cli srv wbroken_c wbroken_s sc_closed cc_closed closing done trig dleak_c dleak_s dleak set_dleak
          rd wr wfailed werr chan queued rf inflight other is_bad] in Hs;
     repeat bm; try discriminate Hs; inversion Hs; subst;
     repeat match goal with t : side |- _ => destruct t end; reflexivity.
@@ -177,7 +207,7 @@ Lemma failed_write_trig : forall c s d s',
   wfailed (getd s d) = false -> step c s (IWrite d true) = Some s' -> trig s' = true.
 Proof.
   intros c s d s' Hw Hs. destruct_state s. destruct d;
-    cbn [step getd setd set_trig dc ds main cli srv wbroken_c wbroken_s sc_closed cc_closed closing done trig
+    cbn [step getd setd set_trig dc ds main cli srv wbroken_c wbroken_s sc_closed cc_closed closing done trig dleak_c dleak_s dleak set_dleak
          rd wr wfailed werr chan queued rf inflight other] in *;
     subst; repeat bm; try discriminate Hs; inversion Hs; reflexivity.
 Qed.
@@ -188,7 +218,7 @@ Proof.
   intros c s l s' Ht Hs. destruct_state s. simpl in Ht. subst.
   destruct l; repeat match goal with t : side |- _ => destruct t end;
     cbn [step getd setd with_rd with_rd_rf exit_failed set_trig set_remote remote
-         dc ds main cli srv wbroken_c wbroken_s sc_closed cc_closed closing done trig
+         dc ds main cli srv wbroken_c wbroken_s sc_closed cc_closed closing done trig dleak_c dleak_s dleak set_dleak
          rd wr wfailed werr chan queued rf inflight other] in Hs;
     repeat bm; try discriminate Hs; inversion Hs; subst;
     repeat match goal with t : side |- _ => destruct t end; reflexivity.
